@@ -165,7 +165,10 @@ SeqNewKey(kv, p) == p.key \o SeqSuffix(SeqParts(kv, p.key), p.deltas, 1)
 
 (* What the leader refuses before it allocates an offset and logs the request              *)
 (* (leader_controller.go: Write/WriteBlock): sequence puts that can never be applied.      *)
-PutWellFormed(p) == p.deltas # <<>> => (p.pkey /\ p.deltas[1] > 0)
+(* ... and no secondary-index declaration, whatever it looks like (see "Secondary-index declarations" below) *)
+DeclRefused(d)   == FALSE
+PutWellFormed(p) == /\ p.deltas # <<>> => (p.pkey /\ p.deltas[1] > 0)
+                    /\ \A i \in 1..Len(p.idx) : ~DeclRefused(p.idx[i])
 WellFormed(req)  == \A i \in 1..Len(req.puts) : PutWellFormed(req.puts[i])
 
 -----------------------------------------------------------------------------
@@ -182,6 +185,30 @@ Has(kv, k)       == k \in DOMAIN kv
 
 IdxOf(pk, e)     == {[n |-> e.idx[i].n, k |-> e.idx[i].k, p |-> pk] : i \in 1..Len(e.idx)}
 ShadowOf(k, e)   == IF e.sess # NoSess THEN {<<e.sess, k>>} ELSE {}
+
+(* Secondary-index declarations (secondary_indexes.go: writeSecondaryIndexes / deleteSecondaryIndexes).    *)
+(* A put carries a SEQUENCE of declarations [n |-> index name, k |-> secondary key].  Nothing constrains  *)
+(* them: the leader refuses no declaration before it logs the request (DeclRefused, part of             *)
+(* PutWellFormed, is constantly FALSE) and the state machine takes both fields as arbitrary byte strings - *)
+(*   the name may be empty, may contain '/' (the entry key then has more path segments than an ordinary  *)
+(*   one: IdxKey is a plain concatenation, nothing is escaped but the primary key) or the separator byte, *)
+(*   the secondary key may be empty or contain '/' or the separator,                                      *)
+(*   the same declaration may be repeated, two declarations may denote the same entry key                 *)
+(*   (<<"a", "b/c">> and <<"a/b", "c">>), and any number of them may be given.                            *)
+(* Since every declaration is accepted into the log, every declaration has to be applicable: the callback *)
+(* writes one entry key per declaration, in order (DeclWrites; a repeated or colliding one writes the same *)
+(* key again), removes the entry keys of the record it replaces or deletes the same way, and the put gets *)
+(* exactly the status - and the record exactly the content and version - it would get without any         *)
+(* declaration (StripDecls; OxiaDbMC!DeclNeutral, DeclEntries).  A maintainer who wants to forbid a shape *)
+(* of declaration has to refuse it before logging, i.e. in WellFormed, where it becomes a REJECTED step.   *)
+DeclWrites(pk, decls) == [i \in 1..Len(decls) |-> IdxKey(decls[i].n, decls[i].k, pk)]
+StripDecls(req)       == [req EXCEPT !.puts = [i \in 1..Len(req.puts) |-> [req.puts[i] EXCEPT !.idx = <<>>]]]
+\* the shapes a client library would not produce (used to pick alphabets and pre-states, never by Apply)
+HostileDecl(d) == d.n = <<>> \/ d.k = <<>> \/ IndexOf(d.n, SLASH) # 0 \/ IndexOf(d.k, SLASH) # 0
+                  \/ IndexOf(d.n, 1) # 0 \/ IndexOf(d.k, 1) # 0
+HostileDecls(decls) == \/ \E i \in 1..Len(decls) : HostileDecl(decls[i])
+                       \/ \E i, j \in 1..Len(decls) : i < j /\ IdxKey(decls[i].n, decls[i].k, <<>>) = IdxKey(decls[j].n, decls[j].k, <<>>)
+                       \/ Len(decls) > 4
 
 NoVersion == [ver |-> -1, mod |-> -1, cts |-> 0, mts |-> 0, sess |-> NoSess, cid |-> ""]
 PutFail(status)  == [st |-> status, key |-> <<>>] @@ NoVersion
